@@ -94,6 +94,8 @@ def judge(period, life, sends, recvs, timeouts, horizon):
         exp.append(k * period)
         k += 1
     got = [x for x in sends if x <= min(horizon, t1) + EPS]
+    if got and got[0] < EPS:
+        got = got[1:]  # an additional keepalive right at connect time is not excluded by the statement
     # the keepalive due at the very instant of the timeout may or may not go out
     ok = len(got) in (len(exp), len(exp) - 1) and all(abs(a - b_) < 1e-6 for a, b_ in zip(got, exp))
     if not ok:
